@@ -92,6 +92,7 @@ def schedule(rnd):
     if rnd.random() < 0.3 and timed: r['M'] = sorted(set(r['M'] + rnd.sample([31, 32, 45, 59], 2)))[:4] if r['freq'] not in ('MINUTELY', 'SECONDLY') else r['M']
     if rnd.random() < 0.2 and timed and r['freq'] != 'SECONDLY': r['S'] = sorted(set(r['S'] + rnd.sample([31, 44, 59], 2)))[:3]
     tz = rnd.choice(rrgen.ZONES) if kind == 'tz' and timed else None
+    if tz and ds[0] > 2024: ds = (rnd.randint(2001, 2022), ds[1], min(ds[2], 28)) + tuple(ds[3:])     # zone files carry transitions up to 2037
     L = ['DTSTART;TZID=%s:%s' % (tz, rrgen.dt_text(ds, z=False)) if tz else ('DTSTART;VALUE=DATE:' if not timed else 'DTSTART:') + rrgen.dt_text(ds)]
     rt = [rrgen.rule_text(r)]
     if kind == 'rules':
@@ -187,6 +188,7 @@ def run(tier, seed):
             r.update(o)
             if 'a' in r: r['a'] = norm_task(r['a'])
             if 'b' in r: r['has_b'] = isinstance(r['b'], dict); r['b'] = norm_task(r['b'])
+            r['beyond_zone_data'] = bool(c['sched'].get('tz')) and any(o[0][0] >= 2037 for o in (r.get('a') or {}).get('occ', []))
             res.append(r)
         return res
     with cf.ThreadPoolExecutor(max_workers=nsl) as ex:
@@ -208,7 +210,7 @@ def run(tier, seed):
            'evaluations': len(recs), 'distinct_nontrivial': len(set(r['input'] for r in recs if isinstance(r.get('b'), dict) and r['b'].get('occ'))),
            'rule': 'one case = one event text: a random subset of every README field (UID, SUMMARY, LOCATION, X-ECHS-SHELL/-IFILE/-OFILE/-EFILE, mail flags, ORGANIZER, ATTENDEEs, DESCRIPTION, X-ECHS-UMASK/-MAX-SIMUL/-OWNER/-SETUID/-SETGID at event and/or calendar level, repeated single-valued fields, values with , ; \\ and values near the 1 KiB line limit) in random order around a schedule (single rule of any FREQ incl. BYSETPOS and BYMINUTE/BYSECOND >= 31, several RRULEs, RDATE lists, RDATE+RRULE, EXDATE/EXRULE, TZID, SHIFT/BYEASTER/SCALE, DURATION). The real parser reads it (attributes + first k+20 occurrences), a second instance consumes k in {0,1,2,5,30,62..65,70,127..130,200} occurrences and is written out by echs_icalify_init/echs_task_icalify/echs_icalify_fini (what echsd checkpoints and echsq submits), and the text is read back (attributes + 20 occurrences)',
            'schedule_kinds': dict(kinds), 'with_special_chars': sum(1 for r in recs if r['special']), 'with_long_values': sum(1 for r in recs if r['long']), 'with_calendar_level_defaults': sum(1 for r in recs if r['cal']),
-           'mismatching_cases': v['nbad'], 'build': fl, 'exhaustive': False}
+           'mismatching_cases': v['nbad'], 'skipped_zoned_beyond_2037': v['nskip'], 'build': fl, 'exhaustive': False}
     return vlib.finish(PID, tier, seed, 'model_checking', cov, t0, unlisted, listed,
                        ['TLC/SANY, Json/IOUtils', 'the generator renders each property both as the text written and as the value the reader must see (iCalendar TEXT escaping of , ; \\ by the rule of RFC 5545 3.3.11)',
                         'the echsq client-side massage() defaults (cwd, shell, umask of the submitting user) and echse merge are not exercised: the library entry points they call are'])
